@@ -1280,7 +1280,11 @@ class Interp:
         raise Undecided("super()")
 
     def e_Yield(self, node, env):
-        self.yields.append(self.eval(node.value, env) if node.value is not None else None)
+        v = self.eval(node.value, env) if node.value is not None else None
+        self.yields.append(v)
+        hook = getattr(self, "on_yield", None)
+        if hook is not None:
+            return hook(self, v)  # may raise PyRaise: an exception thrown into the generator at the yield
         return None
 
     def e_YieldFrom(self, node, env):
